@@ -7,7 +7,7 @@ use crate::step::*;
 use crate::world::World;
 
 pub const EL_NAMES: &[&str] = &["a", "b", "c", "p:d", "q:e", "f"];
-pub const ATTR_NAMES: &[&str] = &["x", "y", "z", "p:w", "id", "xml:lang"];
+pub const ATTR_NAMES: &[&str] = &["x", "y", "z", "p:w", "id", "xml:lang", "dflt", "fx"];
 pub const BAD_NAMES: &[&str] = &["1a", "a b", "a<", "", " ", "a&b", "a x='1'", "x>y", "-a", "a/"];
 pub const ODD_NAMES: &[&str] = &["a:b:c", "zz:a", ":a", "a:"];
 pub const PI_TARGETS: &[&str] = &["t", "u", "pi-x"];
@@ -314,8 +314,19 @@ impl<'a> DocGen<'a> {
         if with_dtd {
             let rootname: String = body[1..].chars().take_while(|c| !c.is_whitespace() && *c != '>' && *c != '/').collect();
             out.push_str(&format!("<!DOCTYPE {}", rootname));
+            let attlist = if self.rng.pct(50) {
+                match self.rng.below(3) {
+                    0 => "<!ATTLIST b dflt CDATA \"dv\">",
+                    1 => "<!ATTLIST a dflt CDATA \"d v\"><!ATTLIST c fx CDATA #FIXED \"k\">",
+                    _ => "<!ATTLIST f dflt CDATA \"dv\"><!ATTLIST b opt CDATA #IMPLIED>",
+                }
+            } else {
+                ""
+            };
             if !self.entities.is_empty() {
-                out.push_str(" [<!ENTITY e1 \"v1\"><!ENTITY e2 \"w &#38; w\">]");
+                out.push_str(&format!(" [<!ENTITY e1 \"v1\"><!ENTITY e2 \"w &#38; w\">{}]", attlist));
+            } else if !attlist.is_empty() {
+                out.push_str(&format!(" [{}]", attlist));
             }
             out.push('>');
             if self.rng.pct(20) {
